@@ -122,7 +122,19 @@ NEEDS.update({
  "j18": "multi-step: a stale policy chain still referenced by a pod chain (policy vanished unseen), then a periodic sync",
  "j19": "interleaving: first request for a network defined only in the network conf dir, concurrent with any other CNI request",
 })
-OTHER = {'j08': ['C05'], 'j01': ['C04'], 'b02': ['C03', 'C05'], 'a04': ['C10'], 'd02': ['C06'], 'd09': ['C05', 'C06'], 'e06': ['C08', 'C05'], 'e01': ['C09', 'C05'], 'e10': ['C04'], 'e04': ['C01'], 'f13': ['C12'], 'd01': ['C04'], 'i02': ['C05'], 'i06': ['C09', 'C05'], 'i04': ['C01'], 'g02b': ['C06'], 'g10': ['C04'], 'g19': ['C06'], 'f16a': ['C15'], 'f15b': ['C16']}
+NEEDS.update({
+ "k02": "state: sized pool (Pool object) with a reserved IP under the pool prefix and room left; a replacement pod is filtered",
+ "k05": "ordering: a labelled (reserved) FloatingIP object exists whose add event has not been handled when that very IP is allocated",
+ "k06": "topology + state: deployment/pool holds reserved IPs in pools with different node subnets; first filter of a replacement, bind on a node of the other subnet",
+ "k11": "input: owner kind of a custom resource ending in 's' / 'ss' (Process, Ingress, Redis); list then release through the API",
+ "k12": "fault x2: plugin i fails during ADD and the DEL of an earlier plugin fails during the rollback; then kubelet's DEL",
+ "k13": "input: the pod handed to Bind already carries common.ipinfos in its args annotation (created from the manifest of a bound pod)",
+ "k14": "state + restart: a host-port pod that is terminating (deletion timestamp, sandbox alive) when the daemon restarts",
+ "k15": "missed event + state: a policy-selected pod vanished from this node unseen and a pod of the same name runs on another node",
+ "k16": "input: egress rule with a podSelector-only peer, a same-labelled pod in another namespace",
+ "k20": "fault or input + repetition: a configmap text that decodes but ConfigurePool refuses (null entry, or the store list fails), polled again",
+})
+OTHER = {'k20': ['C09'], 'k02': ['C07'], 'k05': ['C09'], 'j08': ['C05'], 'j01': ['C04'], 'b02': ['C03', 'C05'], 'a04': ['C10'], 'd02': ['C06'], 'd09': ['C05', 'C06'], 'e06': ['C08', 'C05'], 'e01': ['C09', 'C05'], 'e10': ['C04'], 'e04': ['C01'], 'f13': ['C12'], 'd01': ['C04'], 'i02': ['C05'], 'i06': ['C09', 'C05'], 'i04': ['C01'], 'g02b': ['C06'], 'g10': ['C04'], 'g19': ['C06'], 'f16a': ['C15'], 'f15b': ['C16']}
 only = sys.argv[1:]
 for sid, (prop, pkg) in SEEDS.items():
     if only and sid not in only: continue
